@@ -847,6 +847,9 @@ func runE2E(raw json.RawMessage, seed int64, rec *Rec) {
 	if sc.Peer == "client" {
 		// the peer's freedoms are undone before the comparison: optional blanks in the list, padding of -Bin values
 		reqAccept = strings.ReplaceAll(reqAccept, " ", "")
+		if reqEnc == "identity" {
+			reqEnc = "" // saying "identity" is saying nothing
+		}
 		reqHdrView = unpadBin(reqHdrView, func(v string) ([]byte, error) { return refcodec.B64Decode(v) })
 	}
 	rec.Add(E("req", "ctype", reqCT, "enc", reqEnc, "accept", reqAccept,
